@@ -85,6 +85,17 @@ mutual
     | _ => 0
 end
 
+/-- the field loop of `Type::new` / `parse_struct`, with the type expansion abstracted -/
+def mapFieldsWith (f : Ty → Except Stage MTy) : List Field → Except Stage (List MField)
+  | [] => .ok []
+  | fl :: fs =>
+    match f fl.ty with
+    | .error e => .error e
+    | .ok t =>
+      match mapFieldsWith f fs with
+      | .error e => .error e
+      | .ok r => .ok (.mk fl.name t fl.count :: r)
+
 /-- mir.rs:627 `Type::new`, fuelled: the real recursion follows struct names through the
     symbol table and does not terminate on cyclic containment. -/
 def expandTy (sy : Symbols) : Nat → Ty → Except Stage MTy
@@ -99,16 +110,7 @@ def expandTy (sy : Symbols) : Nat → Ty → Except Stage MTy
       match sy.structLookup n with
       | none => .error .mir
       | some s =>
-        let rec go : List Field → Except Stage (List MField)
-          | [] => .ok []
-          | f :: fs =>
-            match expandTy sy fuel f.ty with
-            | .error e => .error e
-            | .ok t =>
-              match go fs with
-              | .error e => .error e
-              | .ok r => .ok (.mk f.name t f.count :: r)
-        match go s.fields with
+        match mapFieldsWith (expandTy sy fuel) s.fields with
         | .error e => .error e
         | .ok fields =>
           let st := MStruct.mk s.name fields
@@ -266,16 +268,7 @@ def parseToMir (sy : Symbols) (fuel : Nat) : List Node → Except Stage (List MN
       | .const c => .ok (.const c)
       | .struct s =>
         -- parse_struct: every field through Type::new
-        let rec go : List Field → Except Stage (List MField)
-          | [] => .ok []
-          | f :: fs =>
-            match expandTy sy fuel f.ty with
-            | .error e => .error e
-            | .ok t =>
-              match go fs with
-              | .error e => .error e
-              | .ok r => .ok (.mk f.name t f.count :: r)
-        match go s.fields with
+        match mapFieldsWith (expandTy sy fuel) s.fields with
         | .error e => .error e
         | .ok fields =>
           let st := MStruct.mk s.name fields
